@@ -8,6 +8,7 @@ import (
 	"bytes"
 	"encoding/json"
 	"fmt"
+	"io"
 	"strconv"
 	"strings"
 
@@ -143,17 +144,42 @@ func unmarshalJSON[T constraint.ParserInput](input T, r Rule) (Size, error) {
 		if err != nil {
 			return 0, newParseError(defaultParserFuncName, input, err)
 		}
+		// closing brace of the object
+		if _, err := d.Token(); err != nil {
+			return 0, newParseError(defaultParserFuncName, input, err)
+		}
+		if err := expectEnd(d); err != nil {
+			return 0, newParseError(defaultParserFuncName, input, err)
+		}
 		return size, nil
 	case json.Number:
+		if err := expectEnd(d); err != nil {
+			return 0, newParseError(defaultParserFuncName, input, err)
+		}
 		return unmarshalText([]byte(v), 0)
 	case string:
 		if r&RuleEnableJSONStringForm == 0 {
 			return 0, newParseError(defaultParserFuncName, input, ErrStringFormDisabled)
 		}
+		if err := expectEnd(d); err != nil {
+			return 0, newParseError(defaultParserFuncName, input, err)
+		}
 		return unmarshalText([]byte(v), 0)
 	default:
 		return 0, newParseError(defaultParserFuncName, input, fmt.Errorf("%w: expected json.Delim, json.Number or string instead of %T", ErrInvalidType, t))
 	}
+}
+
+// expectEnd returns error if any data follow the JSON value which was already read.
+func expectEnd(d decoder) error {
+	_, err := d.Token()
+	if err == io.EOF {
+		return nil
+	}
+	if err != nil {
+		return err
+	}
+	return ErrUnexpectedData
 }
 
 func prepareNumber(input string) (number, unit string) {
